@@ -451,6 +451,14 @@ def handle : List String → String
     | none => "bad-op"
     | some (rt', lf', sibs', pi') => boolStr (verifyProof Sym.leaf Sym.node rt' lf' sibs' pi' nl)
   | "accd" :: "sha256" :: i :: ops => runDecomp (if i == "x" then none else some (parseHexD i)) ops
+  | ["accr", "sha256", i, seg, bs] =>
+    -- `ReaderRoot` = New, ReadAll, Root;  `BuildReaderProof` = New, SetIndex, ReadAll, Prove (+ error on an empty proof set)
+    let sg := parseHexD seg
+    if sg = 0 then "bad-op" else
+    if i == "x" then optHex (root shaN (readAll shaL shaN ({} : Tree Bytes Bytes) (parseBytes bs) sg)) else
+    let t := readAll shaL shaN ({ pidx := parseHexD i, proofTree := true } : Tree Bytes Bytes) (parseBytes bs) sg
+    let (rt, lf, _, _, nl) := prove shaN t
+    if lf.isNone then s!"err:notreached {optHex rt} {toHex nl}" else showProve shaL shaN id t
   | ["accti", "sha256", n, i, seed, pairs] => accIdxHandle (parseHexD n) (parseHexD i) (parseHexD seed) (pairs.splitOn ",")
   | ["vxi", n, p, pat, _seed, js] => vxIdxHandle (parseHexD n) (parseInt p) pat ((js.splitOn ",").map parseInt)
   | ["vx", n, i, pat, _seed, kind, a] => vxHandle (parseHexD n) (parseInt i) pat kind (parseInt a)
